@@ -346,6 +346,10 @@ typedef dbus_bool_t (* DBusTestMemoryFunction)  (void        *data,
 /* Memory debugging */
 void        _dbus_set_fail_alloc_counter        (int  until_next_fail);
 int         _dbus_get_fail_alloc_counter        (void);
+#ifdef DBUS_VERIF_HOOKS
+DBUS_PRIVATE_EXPORT
+void        _dbus_verif_set_second_fail_gap     (int  gap);
+#endif
 void        _dbus_set_fail_alloc_failures       (int  failures_per_failure);
 int         _dbus_get_fail_alloc_failures       (void);
 dbus_bool_t _dbus_decrement_fail_alloc_counter  (void);
